@@ -139,3 +139,124 @@ def flat_targets(t):
 def body_always_raises(stmts):
     """last statement of a block is raise (syntactic, used only for quick classification)"""
     return bool(stmts) and isinstance(stmts[-1], ast.Raise)
+
+
+# --------------------------------------------------------------------------- string formatting, spelling-independent
+import re as _re
+import string as _string
+
+_PCT = _re.compile(r"%(?:\((\w+)\))?[#0\- +]*(?:\*|\d+)?(?:\.(?:\*|\d+))?([a-zA-Z%])")
+
+
+def fmt_parts(e):
+    """A formatted string as a list of parts, whichever way it is spelled: "..." % x, "...".format(x), f"...",
+    literal + expr.  A part is a str (literal text) or a tuple ("v", expr, conversion) with conversion one of
+    's' 'r' 'a' 'd' 'x' 'X' ... ; None when `e` is not a recognisable format expression."""
+    parts = _fmt(e)
+    if parts is None:
+        return None
+    out = []
+    for p in parts:
+        if isinstance(p, str) and out and isinstance(out[-1], str):
+            out[-1] += p
+        elif p != "":
+            out.append(p)
+    return out
+
+
+def _fmt(e):
+    if isinstance(e, ast.Constant) and isinstance(e.value, str):
+        return [e.value]
+    if isinstance(e, ast.JoinedStr):
+        out = []
+        for v in e.values:
+            if isinstance(v, ast.Constant):
+                out.append(str(v.value))
+            elif isinstance(v, ast.FormattedValue):
+                conv = {115: "s", 114: "r", 97: "a"}.get(v.conversion)
+                if conv is None:
+                    conv = "s"
+                    if v.format_spec is not None:
+                        spec = _fmt(v.format_spec)
+                        if spec and len(spec) == 1 and isinstance(spec[0], str) and spec[0] and spec[0][-1].isalpha():
+                            conv = spec[0][-1]
+                        elif spec:
+                            conv = "?"
+                inner = _fmt(v.value) if isinstance(v.value, (ast.JoinedStr,)) else None
+                out.append(("v", v.value, conv))
+        return out
+    if isinstance(e, ast.BinOp) and isinstance(e.op, ast.Mod) and isinstance(e.left, ast.Constant) and isinstance(e.left.value, str):
+        args = list(e.right.elts) if isinstance(e.right, ast.Tuple) else [e.right]
+        out = []
+        pos = 0
+        i = 0
+        txt = e.left.value
+        for m in _PCT.finditer(txt):
+            out.append(txt[pos:m.start()])
+            pos = m.end()
+            if m.group(2) == "%":
+                out.append("%")
+                continue
+            if m.group(1) is not None:
+                if isinstance(e.right, ast.Dict):
+                    val = None
+                    for k, v in zip(e.right.keys, e.right.values):
+                        if isinstance(k, ast.Constant) and k.value == m.group(1):
+                            val = v
+                    if val is None:
+                        return None
+                    out.append(("v", val, m.group(2)))
+                    continue
+                return None
+            if i >= len(args):
+                return None
+            out.append(("v", args[i], m.group(2)))
+            i += 1
+        out.append(txt[pos:])
+        if i != len(args) and not isinstance(e.right, ast.Dict):
+            return None
+        return out
+    if isinstance(e, ast.Call) and isinstance(e.func, ast.Attribute) and e.func.attr == "format" \
+            and isinstance(e.func.value, ast.Constant) and isinstance(e.func.value.value, str):
+        out = []
+        auto = 0
+        kw = {k.arg: k.value for k in e.keywords if k.arg}
+        try:
+            fields = list(_string.Formatter().parse(e.func.value.value))
+        except ValueError:
+            return None
+        for lit, name, spec, conv in fields:
+            out.append(lit)
+            if name is None:
+                continue
+            base = name.split(".")[0].split("[")[0]
+            if base == "":
+                idx = auto
+                auto += 1
+                val = e.args[idx] if idx < len(e.args) else None
+            elif base.isdigit():
+                val = e.args[int(base)] if int(base) < len(e.args) else None
+            else:
+                val = kw.get(base)
+            if val is None or base != name:
+                return None
+            c = conv or (spec[-1] if spec and spec[-1].isalpha() else "s")
+            out.append(("v", val, c))
+        return out
+    if isinstance(e, ast.BinOp) and isinstance(e.op, ast.Add):
+        l, r = _fmt(e.left), _fmt(e.right)
+        if l is None and r is None:
+            return None
+        return (l if l is not None else [("v", e.left, "s")]) + (r if r is not None else [("v", e.right, "s")])
+    return None
+
+
+def fmt_shape(e):
+    """('literal {} text', [value exprs], [conversions]) or None"""
+    parts = fmt_parts(e)
+    if parts is None:
+        return None
+    txt = "".join(p if isinstance(p, str) else "{}" for p in parts)
+    vals = [p[1] for p in parts if not isinstance(p, str)]
+    convs = [p[2] for p in parts if not isinstance(p, str)]
+    return txt, vals, convs
